@@ -52,28 +52,35 @@ Record st := mkSt
     dir2 : phase;         (* target->client copy loop *)
     t_eos : bool;         (* proxy has shut/closed the target connection: target reads EOS after t_in *)
     c_eos : bool;
-    closed : bool }.      (* handler returned: both connections released *)
+    closed : bool;        (* handler returned: both connections released *)
+    c_abort : bool;       (* the client's socket is gone abortively (RST): the proxy's reads from it
+                             fail (possibly before everything it sent was read), writes to it fail *)
+    t_abort : bool }.
 
 (* [early]: payload that arrived with the CONNECT head; [peeked]: target bytes
    that arrived with the downstream proxy's 200 head (kept by peekedConn). *)
 Definition init (early peeked : list byte) : st :=
-  mkSt early peeked early [] [] [] peeked [] true true Running Running false false false.
+  mkSt early peeked early [] [] [] peeked [] true true Running Running false false false false false.
 
 Inductive label :=
 | ClientSend (bs : list byte)
 | TargetSend (bs : list byte)
 | ClientShut
 | TargetShut
+| ClientAbort        (* abortive close: SO_LINGER 0, or close with unread received data *)
+| TargetAbort
 | Drain1
 | Copy1 (n : nat)
 | Eof1
 | Copy2 (n : nat)
 | Eof2
+| Err1               (* client->target copy returns with an error *)
+| Err2
 | Join.
 
 Definition internal (l : label) : bool :=
   match l with
-  | Drain1 | Copy1 _ | Eof1 | Copy2 _ | Eof2 | Join => true
+  | Drain1 | Copy1 _ | Eof1 | Copy2 _ | Eof2 | Err1 | Err2 | Join => true
   | _ => false
   end.
 
@@ -89,7 +96,8 @@ Definition push (tin w : list byte) : list byte * list byte :=
 
 Definition set_c2t (s : st) (rb src wb tin : list byte) : st :=
   mkSt (c_sent s) (t_sent s) rb src wb tin (t2c_src s) (c_in s)
-       (c_wr_open s) (t_wr_open s) (dir1 s) (dir2 s) (t_eos s) (c_eos s) (closed s).
+       (c_wr_open s) (t_wr_open s) (dir1 s) (dir2 s) (t_eos s) (c_eos s) (closed s)
+       (c_abort s) (t_abort s).
 
 Definition step (c : cfg) (s : st) (l : label) : option st :=
   match l with
@@ -97,26 +105,36 @@ Definition step (c : cfg) (s : st) (l : label) : option st :=
       if c_wr_open s
       then Some (mkSt (c_sent s ++ bs) (t_sent s) (rbuf s) (c2t_src s ++ bs) (wbuf s) (t_in s)
                       (t2c_src s) (c_in s) true (t_wr_open s) (dir1 s) (dir2 s)
-                      (t_eos s) (c_eos s) (closed s))
+                      (t_eos s) (c_eos s) (closed s) (c_abort s) (t_abort s))
       else None
   | TargetSend bs =>
       if t_wr_open s
       then Some (mkSt (c_sent s) (t_sent s ++ bs) (rbuf s) (c2t_src s) (wbuf s) (t_in s)
                       (t2c_src s ++ bs) (c_in s) (c_wr_open s) true (dir1 s) (dir2 s)
-                      (t_eos s) (c_eos s) (closed s))
+                      (t_eos s) (c_eos s) (closed s) (c_abort s) (t_abort s))
       else None
   | ClientShut =>
       if c_wr_open s
       then Some (mkSt (c_sent s) (t_sent s) (rbuf s) (c2t_src s) (wbuf s) (t_in s)
                       (t2c_src s) (c_in s) false (t_wr_open s) (dir1 s) (dir2 s)
-                      (t_eos s) (c_eos s) (closed s))
+                      (t_eos s) (c_eos s) (closed s) (c_abort s) (t_abort s))
       else None
   | TargetShut =>
       if t_wr_open s
       then Some (mkSt (c_sent s) (t_sent s) (rbuf s) (c2t_src s) (wbuf s) (t_in s)
                       (t2c_src s) (c_in s) (c_wr_open s) false (dir1 s) (dir2 s)
-                      (t_eos s) (c_eos s) (closed s))
+                      (t_eos s) (c_eos s) (closed s) (c_abort s) (t_abort s))
       else None
+  | ClientAbort =>
+      if c_abort s then None
+      else Some (mkSt (c_sent s) (t_sent s) (rbuf s) (c2t_src s) (wbuf s) (t_in s)
+                      (t2c_src s) (c_in s) false (t_wr_open s) (dir1 s) (dir2 s)
+                      (t_eos s) (c_eos s) (closed s) true (t_abort s))
+  | TargetAbort =>
+      if t_abort s then None
+      else Some (mkSt (c_sent s) (t_sent s) (rbuf s) (c2t_src s) (wbuf s) (t_in s)
+                      (t2c_src s) (c_in s) (c_wr_open s) false (dir1 s) (dir2 s)
+                      (t_eos s) (c_eos s) (closed s) (c_abort s) true)
   | Drain1 =>
       (* bufio.Reader.WriteTo -> writeBuf(w): the buffered bytes go to w.Write *)
       if phase_eqb (dir1 s) Running && negb (is_nil (rbuf s))
@@ -146,9 +164,9 @@ Definition step (c : cfg) (s : st) (l : label) : option st :=
       if phase_eqb (dir1 s) Running && is_nil (rbuf s) && is_nil (c2t_src s) && negb (c_wr_open s)
       then if eos_prop c
            then Some (mkSt (c_sent s) (t_sent s) [] [] [] (t_in s ++ wbuf s) (t2c_src s) (c_in s)
-                           false (t_wr_open s) Done (dir2 s) true (c_eos s) (closed s))
+                           false (t_wr_open s) Done (dir2 s) true (c_eos s) (closed s) (c_abort s) (t_abort s))
            else Some (mkSt (c_sent s) (t_sent s) [] [] (wbuf s) (t_in s) (t2c_src s) (c_in s)
-                           false (t_wr_open s) Done (dir2 s) (t_eos s) (c_eos s) (closed s))
+                           false (t_wr_open s) Done (dir2 s) (t_eos s) (c_eos s) (closed s) (c_abort s) (t_abort s))
       else None
   | Copy2 n =>
       if phase_eqb (dir2 s) Running
@@ -156,19 +174,41 @@ Definition step (c : cfg) (s : st) (l : label) : option st :=
            if is_nil chunk then None
            else Some (mkSt (c_sent s) (t_sent s) (rbuf s) (c2t_src s) (wbuf s) (t_in s)
                            (skipn n (t2c_src s)) (c_in s ++ chunk) (c_wr_open s) (t_wr_open s)
-                           (dir1 s) (dir2 s) (t_eos s) (c_eos s) (closed s))
+                           (dir1 s) (dir2 s) (t_eos s) (c_eos s) (closed s) (c_abort s) (t_abort s))
       else None
   | Eof2 =>
       if phase_eqb (dir2 s) Running && is_nil (t2c_src s) && negb (t_wr_open s)
       then Some (mkSt (c_sent s) (t_sent s) (rbuf s) (c2t_src s) (wbuf s) (t_in s) [] (c_in s)
                       (c_wr_open s) false (dir1 s) Done (t_eos s)
-                      (if eos_prop c then true else c_eos s) (closed s))
+                      (if eos_prop c then true else c_eos s) (closed s) (c_abort s) (t_abort s))
+      else None
+  | Err1 =>
+      (* io.Copy returns an error: the read from the aborted client failed, or there was
+         something to write to the aborted target.  Unread bytes stay behind for good.
+         The repaired copySync still flushes and half-closes its destination. *)
+      if phase_eqb (dir1 s) Running
+         && (c_abort s || (t_abort s && negb (is_nil (rbuf s) && is_nil (c2t_src s))))
+      then if eos_prop c
+           then Some (mkSt (c_sent s) (t_sent s) (rbuf s) (c2t_src s) [] (t_in s ++ wbuf s)
+                           (t2c_src s) (c_in s) (c_wr_open s) (t_wr_open s) Done (dir2 s)
+                           true (c_eos s) (closed s) (c_abort s) (t_abort s))
+           else Some (mkSt (c_sent s) (t_sent s) (rbuf s) (c2t_src s) (wbuf s) (t_in s)
+                           (t2c_src s) (c_in s) (c_wr_open s) (t_wr_open s) Done (dir2 s)
+                           (t_eos s) (c_eos s) (closed s) (c_abort s) (t_abort s))
+      else None
+  | Err2 =>
+      if phase_eqb (dir2 s) Running
+         && (t_abort s || (c_abort s && negb (is_nil (t2c_src s))))
+      then Some (mkSt (c_sent s) (t_sent s) (rbuf s) (c2t_src s) (wbuf s) (t_in s)
+                      (t2c_src s) (c_in s) (c_wr_open s) (t_wr_open s) (dir1 s) Done
+                      (t_eos s) (if eos_prop c then true else c_eos s) (closed s)
+                      (c_abort s) (t_abort s))
       else None
   | Join =>
       (* <-donec; <-donec; deferred cbw.Flush(), cconn.Close(); handleLoop: conn.Close() *)
       if phase_eqb (dir1 s) Done && phase_eqb (dir2 s) Done && negb (closed s)
       then Some (mkSt (c_sent s) (t_sent s) (rbuf s) (c2t_src s) [] (t_in s ++ wbuf s)
-                      (t2c_src s) (c_in s) (c_wr_open s) (t_wr_open s) Done Done true true true)
+                      (t2c_src s) (c_in s) (c_wr_open s) (t_wr_open s) Done Done true true true (c_abort s) (t_abort s))
       else None
   end.
 
@@ -187,6 +227,8 @@ Definition quiescentb (s : st) : bool :=
   && negb (r1 && is_nil (rbuf s) && is_nil (c2t_src s) && negb (c_wr_open s))
   && negb (r2 && negb (is_nil (t2c_src s)))
   && negb (r2 && is_nil (t2c_src s) && negb (t_wr_open s))
+  && negb (r1 && (c_abort s || (t_abort s && negb (is_nil (rbuf s) && is_nil (c2t_src s)))))
+  && negb (r2 && (t_abort s || (c_abort s && negb (is_nil (t2c_src s)))))
   && negb (phase_eqb (dir1 s) Done && phase_eqb (dir2 s) Done && negb (closed s)).
 
 (* A scheduler: some enabled internal label, reading as much as possible. *)
@@ -198,6 +240,8 @@ Definition next_internal (s : st) : option label :=
   else if r1 && negb (c_wr_open s) then Some Eof1
   else if r2 && negb (is_nil (t2c_src s)) then Some (Copy2 (length (t2c_src s)))
   else if r2 && negb (t_wr_open s) then Some Eof2
+  else if r1 && c_abort s then Some Err1
+  else if r2 && t_abort s then Some Err2
   else if phase_eqb (dir1 s) Done && phase_eqb (dir2 s) Done && negb (closed s) then Some Join
   else None.
 
@@ -246,9 +290,14 @@ Fixpoint target_bytes (tr : list label) : list byte :=
   end.
 
 Definition client_shut (tr : list label) : bool :=
-  existsb (fun l => match l with ClientShut => true | _ => false end) tr.
+  existsb (fun l => match l with ClientShut | ClientAbort => true | _ => false end) tr.
 Definition target_shut (tr : list label) : bool :=
-  existsb (fun l => match l with TargetShut => true | _ => false end) tr.
+  existsb (fun l => match l with TargetShut | TargetAbort => true | _ => false end) tr.
+
+Definition client_aborted (tr : list label) : bool :=
+  existsb (fun l => match l with ClientAbort => true | _ => false end) tr.
+Definition target_aborted (tr : list label) : bool :=
+  existsb (fun l => match l with TargetAbort => true | _ => false end) tr.
 
 Definition spec_view (early peeked : list byte) (tr : list label) : view :=
   mkView (early ++ client_bytes tr) (client_shut tr)
@@ -259,14 +308,23 @@ Definition spec_view (early peeked : list byte) (tr : list label) : view :=
 (* Scripts: phases of concurrent activity, each followed by a checkpoint *)
 (* ------------------------------------------------------------------ *)
 
+(* how an end finishes in a phase *)
+Inductive fin := FinNone | FinShut | FinAbort.
+
+Definition fin_shut (f : fin) : bool := match f with FinNone => false | _ => true end.
+Definition fin_abort (f : fin) : bool := match f with FinAbort => true | _ => false end.
+
 Record pact := mkPact
-  { pa_c : list byte; pa_cshut : bool; pa_t : list byte; pa_tshut : bool }.
+  { pa_c : list byte; pa_cfin : fin; pa_t : list byte; pa_tfin : fin }.
+
+Definition pa_cshut (p : pact) : bool := fin_shut (pa_cfin p).
+Definition pa_tshut (p : pact) : bool := fin_shut (pa_tfin p).
 
 Definition phase_labels (p : pact) : list label :=
   (if is_nil (pa_c p) then [] else [ClientSend (pa_c p)])
   ++ (if is_nil (pa_t p) then [] else [TargetSend (pa_t p)])
-  ++ (if pa_cshut p then [ClientShut] else [])
-  ++ (if pa_tshut p then [TargetShut] else []).
+  ++ (match pa_cfin p with FinNone => [] | FinShut => [ClientShut] | FinAbort => [ClientAbort] end)
+  ++ (match pa_tfin p with FinNone => [] | FinShut => [TargetShut] | FinAbort => [TargetAbort] end).
 
 (* Apply each phase's environment labels, then run to quiescence and look.
    [None]: the script is not admissible (an end acts after it shut) or
